@@ -201,6 +201,11 @@ func (rs *bodyStream) Read(p []byte) (int, error) {
 	if rs.contentLength >= 0 && m > remain {
 		m = remain
 	}
+	if m <= 0 {
+		// more than contentLength bytes were prefetched (a body over the size limit is
+		// prefetched without looking at its declared length): nothing is left to read
+		return n, io.EOF
+	}
 
 	if conn, ok := rs.reader.(io.Reader); ok {
 		m, err = conn.Read(p[n : n+m])
